@@ -215,7 +215,7 @@ func runSession(se session) {
 	if n := srv.Repeats.Load(); n >= stepBound {
 		kind := "other"
 		for _, m := range se.Muts {
-			if m.Kind == "redirect-loop" || m.Kind == "auth-loop" {
+			if m.Kind == "redirect-loop" || m.Kind == "auth-loop" || m.Kind == "chatter" {
 				kind = m.Method + ":" + m.Kind
 			}
 		}
